@@ -7,8 +7,8 @@
    All numbers are reals: every float input is covered under exact arithmetic.
    Arguments of the kernels: capacity, current charge, current charging power, max power,
    [noise level, transition SoC,] pilot, voltage, period, [noise draws]. *)
-From Coq Require Import ZArith Reals Lra List Bool String.
-From ACN Require Import Base.Num Base.NumR Gen.Battery_R Gen.BatteryGuard_R Proofs.Battery.
+From Coq Require Import ZArith QArith Reals Lra List Bool String.
+From ACN Require Import Base.Num Base.NumR Gen.Battery_Q Proofs.BatteryQ Gen.Battery_R Gen.BatteryGuard_R Proofs.Battery.
 Import ListNotations.
 Open Scope R_scope.
 
@@ -47,6 +47,33 @@ Theorem C03_continuous : forall cap c p0 maxP noise_level ts pilot V T noise,
     /\ L2_charge__current_charge o - c = L2_charge_ret o * V / 1000 * (T / 60).
 Proof. exact c03_continuous. Qed.
 Print Assumptions C03_continuous.
+
+(* the ideal and the stepwise kernel do not use exp: the same two theorems about the executable
+   rational twin Gen/Battery_Q.v (every float is a rational), without any axiom *)
+Theorem C03_ideal_Q : forall cap c p0 maxP pilot V T : Q,
+  (0 <= maxP -> c <= cap -> 0 < V -> 0 < T -> 0 <= pilot ->
+  exists o, Battery_Q.Battery_charge cap c p0 maxP pilot V T = OkS o
+    /\ (0 <= Battery_Q.Battery_charge_ret o /\ Battery_Q.Battery_charge_ret o <= pilot)
+    /\ (0 <= Battery_Q.Battery_charge__current_charging_power o
+        /\ Battery_Q.Battery_charge__current_charging_power o <= maxP)
+    /\ (c <= Battery_Q.Battery_charge__current_charge o /\ Battery_Q.Battery_charge__current_charge o <= cap)
+    /\ Battery_Q.Battery_charge__current_charge o - c
+       == Battery_Q.Battery_charge_ret o * V / 1000 * (T / 60))%Q.
+Proof. exact c03_ideal_Q. Qed.
+Print Assumptions C03_ideal_Q.
+
+Theorem C03_stepwise_Q : forall cap c p0 maxP noise_level ts pilot V T noise noise2 : Q,
+  (0 < cap -> 0 <= maxP -> ts < 1 -> c <= cap -> 0 < V -> 0 < T -> 0 <= pilot ->
+  exists o, Battery_Q.L2_charge_stepwise cap c p0 maxP noise_level ts pilot V T noise noise2 = OkS o
+    /\ (0 <= Battery_Q.L2_charge_stepwise_ret o /\ Battery_Q.L2_charge_stepwise_ret o <= pilot)
+    /\ (0 <= Battery_Q.L2_charge_stepwise__current_charging_power o
+        /\ Battery_Q.L2_charge_stepwise__current_charging_power o <= maxP)
+    /\ (c <= Battery_Q.L2_charge_stepwise__current_charge o
+        /\ Battery_Q.L2_charge_stepwise__current_charge o <= cap)
+    /\ Battery_Q.L2_charge_stepwise__current_charge o - c
+       == Battery_Q.L2_charge_stepwise_ret o * V / 1000 * (T / 60))%Q.
+Proof. exact c03_stepwise_Q. Qed.
+Print Assumptions C03_stepwise_Q.
 
 (* ---------- error branches: voltage <= 0 or period <= 0 raise ValueError, state untouched ---------- *)
 Theorem C03_ideal_rejects : forall cap c p0 maxP pilot V T, V <= 0 \/ T <= 0 ->
@@ -95,6 +122,20 @@ Theorem C03_sequence : forall b ops,
   /\ s_charge st <= s_charge (final_state b st ops) <= b_cap b.
 Proof. exact c03_sequence. Qed.
 Print Assumptions C03_sequence.
+
+(* the whole life of a battery object: constructed (init charge <= capacity), then ANY list of
+   charge calls (non-negative pilots) and reset(x) calls: before every operation the stored charge is
+   at most the capacity, every charge call is call_ok, every reset leaves it at most at capacity *)
+Theorem C03_life : forall b ops,
+  battery_ok b -> b_init b <= b_cap b -> Forall bop_pilot_ok ops ->
+  Forall (fun '(st, o) =>
+            s_charge st <= b_cap b /\
+            match o with
+            | OpCharge c => call_ok b st c (charge_call b st c)
+            | OpReset x => s_charge (reset_state b st x) <= b_cap b
+            end) (life b (initial_state b) ops).
+Proof. exact c03_life. Qed.
+Print Assumptions C03_life.
 
 (* hence in a simulation: a station's history is a sequence of gaps (no EV: recorded rate 0) and
    sessions; every period runs the generated BaseEVSE_set_pilot (accepted pilot), whose effect on
